@@ -364,13 +364,14 @@ func useAddr(t failer, rec *ev.Recorder, origin string, addr conn.Addr, username
 	h := fnv.New32a()
 	h.Write([]byte(addr.String()))
 	hv := h.Sum32()
-	for i, c := range routerCells(t) {
-		info := router.RequestInfo{ServerIndex: i & 1, Username: username, SourceAddrPort: srcs[(int(hv)+i)%len(srcs)], TargetAddr: addr}
-		stage := "route"
-		if addr.Port() != 0 {
-			stage = "route-" + c.name
-		}
-		k := guard(t, rec, stage, func() string { return desc() + " cell=" + c.name + " rep=" + c.rep }, func() {
+	// One guard (one goroutine + timer) for all cells; cur names the cell in flight for the failure message. A listed
+	// finding ends the routing step for this address (the remaining cells are skipped, counted as known).
+	cellList := routerCells(t)
+	cur := ""
+	k := guard(t, rec, "route", func() string { return desc() + " cell=" + cur }, func() {
+		for i, c := range cellList {
+			cur = c.name + " rep=" + c.rep
+			info := router.RequestInfo{ServerIndex: i & 1, Username: username, SourceAddrPort: srcs[(int(hv)+i)%len(srcs)], TargetAddr: addr}
 			if isUDP {
 				cl, err := c.r.GetUDPClient(ctx, info)
 				if cl == nil && err == nil {
@@ -382,12 +383,11 @@ func useAddr(t failer, rec *ev.Recorder, origin string, addr conn.Addr, username
 					t.Fatalf("SIG=C06/route-no-result VERIF-VIOLATION %s cell=%s: GetTCPClient returned neither client nor error", desc(), c.name)
 				}
 			}
-		})
-		if k {
-			res.known = true
-		} else {
 			res.routed++
 		}
+	})
+	if k {
+		res.known = true
 	}
 
 	// 3. relaying: every client protocol re-encodes the address for its upstream.
@@ -403,42 +403,43 @@ func useAddr(t failer, rec *ev.Recorder, origin string, addr conn.Addr, username
 				p    zerocopy.ClientPacker
 			}{"direct", relayDirect})
 		}
-		for _, pk := range packers {
-			guard(t, rec, "relay-udp-"+pk.name, desc, func() {
+		guard(t, rec, "relay-udp", func() string { return desc() + " step=" + cur }, func() {
+			for _, pk := range packers {
+				cur = "pack-" + pk.name
 				hr := pk.p.ClientPackerInfo().Headroom
 				buf := make([]byte, hr.Front+payload+hr.Rear)
 				_, ps, pl, err := pk.p.PackInPlace(ctx, buf, addr, hr.Front, payload)
 				if err == nil && (ps < 0 || pl < 0 || ps+pl > len(buf)) {
 					t.Fatalf("SIG=C06/relay-bounds VERIF-VIOLATION %s packer=%s start=%d len=%d buf=%d", desc(), pk.name, ps, pl, len(buf))
 				}
-			})
-			res.relayed++
-		}
-		// reply packing: the downlink packs the payload source, which for an IP target is the target itself.
-		if addr.IsIP() {
-			for _, sp := range []zerocopy.ServerPacker{srvPackNone, srvPackSocks5} {
-				guard(t, rec, "reply-udp", desc, func() {
+				res.relayed++
+			}
+			// reply packing: the downlink packs the payload source, which for an IP target is the target itself.
+			if addr.IsIP() {
+				for _, sp := range []zerocopy.ServerPacker{srvPackNone, srvPackSocks5} {
+					cur = "reply-pack"
 					hr := sp.ServerPackerInfo().Headroom
 					buf := make([]byte, hr.Front+payload+hr.Rear)
 					_, _, _ = sp.PackInPlace(buf, addr.IPPort(), hr.Front, payload, 1472)
-				})
+				}
 			}
-		}
+		})
 	} else {
 		n := len(relayStreams)
 		idx := []int{0, 1, 2, 3 + int(hv%2)} // none, socks5, http always; one of the two ss2022 clients
-		for _, i := range idx {
-			if i >= n {
-				continue
-			}
-			guard(t, rec, "relay-tcp-"+strconv.Itoa(i), desc, func() {
+		guard(t, rec, "relay-tcp", func() string { return desc() + " step=" + cur }, func() {
+			for _, i := range idx {
+				if i >= n {
+					continue
+				}
+				cur = "dial-" + strconv.Itoa(i)
 				c, err := relayStreams[i].DialStream(ctx, addr, []byte("ping"))
 				if err == nil && c != nil {
 					c.Close()
 				}
-			})
-			res.relayed++
-		}
+				res.relayed++
+			}
+		})
 	}
 	return
 }
